@@ -208,6 +208,19 @@ func genC17(t *Tape) *lifeScenario {
 		sc.ManyClients = true
 		sc.Clients = nil
 		n := 265 + t.Choose(60)
+		if t.Chance(1, 4) {
+			n = 1030 + t.Choose(70) // past a thousand
+		}
+		// a few of them stay: the last two, and one or two that arrive around the 256th connection (where tables sized
+		// in powers of two fill up); one early client outlives nearly all the others and leaves shortly before the end
+		stays := map[int]bool{n - 2: true, n - 1: true}
+		for k := 0; k < 1+t.Choose(2); k++ {
+			stays[250+t.Choose(12)] = true
+		}
+		lateLeaver := -1
+		if t.Chance(1, 2) {
+			lateLeaver = 1 + t.Choose(3)
+		}
 		for c := 0; c < n; c++ {
 			r, ok := genValidSrvReq(t, []byte{3, 4, 1}[c%3], byte(1+c%200), tid)
 			tid++
@@ -216,8 +229,10 @@ func genC17(t *Tape) *lifeScenario {
 			}
 			cl := lifeClient{Delay: time.Duration(c)*700*time.Microsecond + time.Duration(t.Choose(900))*time.Microsecond}
 			cl.Ops = append(cl.Ops, lifeOp{Kind: "req", Frame: r.Frame, TID: r.TID})
-			if c >= n-2 {
+			if stays[c] {
 				cl.Ops = append(cl.Ops, lifeOp{Kind: "hold"})
+			} else if c == lateLeaver {
+				cl.Ops = append(cl.Ops, lifeOp{Kind: "idle", Gap: time.Duration(n)*700*time.Microsecond - cl.Delay + time.Duration(5+t.Choose(40))*time.Millisecond}, lifeOp{Kind: "close"})
 			} else {
 				cl.Ops = append(cl.Ops, lifeOp{Kind: "close"})
 			}
@@ -228,6 +243,9 @@ func genC17(t *Tape) *lifeScenario {
 	}
 	if t.Chance(1, 4) {
 		sc.RejectEvery = 1 + t.Choose(3)
+	}
+	if sc.ManyClients && len(sc.Clients) > 1000 && t.Chance(1, 2) {
+		sc.RejectEvery = 1 // every one of them is turned away by the accept callback
 	}
 	sc.OnServeWork = []time.Duration{0, 0, 2 * time.Millisecond, 30 * time.Millisecond}[t.Choose(4)]
 	sc.CallbackWork = []time.Duration{0, 0, time.Millisecond, 8 * time.Millisecond}[t.Choose(4)]
